@@ -23,7 +23,7 @@ EXPLANATION = (
     'reset; (i) the JSON text is ASCII-safe for every file encoding.  Value-'
     'level round-trip equality is not decided.')
 FLOORS = {'C05.a': 12, 'C05.b': 1, 'C05.c': 1, 'C05.d': 1, 'C05.e': 1,
-          'C05.f': 2, 'C05.g': 1, 'C05.h': 1, 'C05.i': 1, 'C05.j': 1, 'C05.k': 1, 'C05.l': 5}
+          'C05.f': 2, 'C05.g': 1, 'C05.h': 1, 'C05.i': 1, 'C05.j': 1, 'C05.k': 1, 'C05.l': 5, 'C05.m': 1}
 FILES = ['pyglove/core/utils/json_conversion.py', 'pyglove/core/symbolic/base.py',
          'pyglove/core/symbolic/object.py', 'pyglove/core/symbolic/dict.py',
          'pyglove/core/symbolic/list.py', 'pyglove/core/typing/value_specs.py',
@@ -748,8 +748,28 @@ def rule_j(ctx):
          f'writes {writes}')
 
 
+def rule_m(ctx):
+  """A raw line-sequence record is one line.  The reader splits on the record
+  separator, so the writer must refuse (or escape) a record that contains it;
+  otherwise one appended record comes back as several."""
+  idx = ctx.index
+  f = idx.func('pyglove.core.io.sequence.LineSequence._add')
+  rd = idx.func('pyglove.core.io.sequence.LineSequence._iter')
+  g = C.cfg_of(f.node)
+  rec = [p for p in A.param_names(f.node) if p != 'self'][0]
+  reads_lines = any(isinstance(c.func, ast.Attribute) and c.func.attr in ('readline', 'readlines', 'splitlines')
+                    for c in A.calls_in(rd.node)) or any(isinstance(n, ast.For) for n in ast.walk(rd.node))
+  guards = [k for k in g.nodes if k.kind == 'test' and isinstance(k.ast, ast.Compare) and len(k.ast.ops) == 1
+            and isinstance(k.ast.ops[0], ast.In) and A.const_str(k.ast.left) == '\n' and g.always_raises_from(k, 'true')]
+  escapes = any(isinstance(c.func, ast.Attribute) and c.func.attr in ('replace', 'encode', 'translate') and c.args
+                and A.const_str(c.args[0]) == '\n' for c in A.calls_in(f.node))
+  ctx.ob('C05.m', f.fq + '#separator', (not reads_lines) or bool(guards) or escapes,
+         'the raw line-sequence writer refuses or escapes a record that contains the record separator the reader splits on',
+         f.loc, "a record with an embedded '\\n' is written as is and read back as several records")
+
+
 def run(ctx):
-  ctx.consult(*FILES)
+  ctx.consult(*FILES, 'pyglove/core/io/sequence.py')
   rule_a(ctx)
   rule_b(ctx)
   rule_c(ctx)
@@ -763,4 +783,5 @@ def run(ctx):
   rule_j(ctx)
   rule_k(ctx)
   rule_l(ctx)
+  rule_m(ctx)
   ctx.assume('injectivity of the encoding over the value space and pg.eq after a round trip are not decided')
